@@ -988,7 +988,11 @@ class Verifier(Interp):
             elif isinstance(old, (P, MapV, BimapV)):
                 self.havoc_ref(val, v)
             elif isinstance(old, lib.ListV):
-                raise Unsupported("list %s with concrete spine is mutated inside a loop cut by an invariant" % v)
+                if v in cell_types:
+                    st_ = SeqT(cell_types[v])
+                    self.st.heap[val.rid] = P(st_, z3.Const(self.fresh_name("hv." + v), sort_of(st_)))
+                else:
+                    raise Unsupported("list %s with concrete spine is mutated inside a loop cut by an invariant" % v)
 
     def assigned_names(self, stmts):
         names = set()
@@ -1343,6 +1347,7 @@ class Verifier(Interp):
             if cond is not None:
                 c = self.spec_eval(lambda: self.truth(self.ev(self.parse(cond))), env)
                 self.emit("%s#raises.%s.only_when" % (short, val), c, meta={"kind": "raises"})
+            self.cur_raised = val
             def rpost():
                 for i, e in enumerate(con.raises_ensures):
                     self.prove("%s#raises.post.%d" % (short, i), self.formula(e), meta={"kind": "raises"})
